@@ -161,6 +161,19 @@ static void print_layout(void) {
     }
   }
   printf("\n");
+  {
+    /* the bytes of the current MANIFEST (at most 64 KiB), for the replay by the extracted
+       model of ldb_versions_recover (ManifestReplay.v); read through stdio */
+    char fname[LDB_PATH_MAX]; FILE *f;
+    if (ldb_desc_filename(fname, sizeof(fname), g_dir, g_db->versions->manifest_file_number) && (f = fopen(fname, "rb")) != NULL) {
+      static uint8_t mbuf[65537]; size_t n = fread(mbuf, 1, sizeof(mbuf), f);
+      fclose(f);
+      if (n <= 65536) {
+        printf("MANIFESTHEX %llu ", (unsigned long long)g_db->versions->manifest_file_number);
+        put_hex(stdout, mbuf, n); putchar('\n');
+      }
+    }
+  }
   print_dir();
 }
 
